@@ -149,6 +149,8 @@ def check (x : Step) : List (String × String) :=
     (x.hasbody && (x.mode != 0 && !x.cfwd) && x.bnext != -1, "C08.metadata_field.next_auto_refresh_in_seconds", "auto refresh unavailable but next_auto_refresh ≠ -1"),
     (x.hasbody && !(x.mode != 0 && !x.cfwd) && x.bnext < 0, "C08.metadata_field.next_auto_refresh_in_seconds", "auto refresh available but next_auto_refresh < 0"),
     (x.hasbody && post.st == 1 && (x.bcooldown != decide (now < cooldownEnd post)) && decide ((now - cooldownEnd post).natAbs > 2000000000), "C08.metadata_field.refresh_cooldown", "cooldown flag disagrees with the stored metadata"),
+    (post.st == 1 && x.inact > 0 && post.timeout != 0 && decide (post.expire > post.timeout + 2 * second), "C08.metadata_field.expire_at",
+      "the token expiry kept (and reported by the session endpoints) lies beyond the inactivity timeout: the documented schedule (refresh no later than the half-way point to the timeout, expiry capped by it) no longer holds"),
     (x.granted > 0 && post.st == 1 && !(post.atok == x.newat), "C07.pair_split", "stored access token is not the one just issued"),
     -- C10 ---------------------------------------------------------------------------------------------------------------
     (post.st != 0 && post.ttl ≤ 0, "C10.no_ttl.session", "session entry without expiry"),
